@@ -22,6 +22,7 @@ class Obj:
         object.__setattr__(self, '_cls', _cls)
         object.__setattr__(self, '_name', _name)
         object.__setattr__(self, '_fields', dict(fields))
+        object.__setattr__(self, '_constructed', False)
 
     def get(self, name):
         f = object.__getattribute__(self, '_fields')
@@ -548,6 +549,10 @@ class Interp(MiniEval):
                         return lambda: [(k, self.apply(gi, [k], {})) for k in keys()]
                     if attr == '__contains__':
                         return lambda k: k in keys()
+            if cq and object.__getattribute__(base, '_constructed') and not attr.startswith('__'):
+                # an object the interpreted program built itself: what its class does not define and its constructor did not
+                # set does not exist
+                raise Raised('AttributeError')
             raise Unsupported(f'attribute {attr} of {base!r}')
         if isinstance(base, PkgClass):
             for c in self.src.mro(base.qual):
@@ -592,7 +597,7 @@ class Interp(MiniEval):
                 and hasattr(base, attr) and not getattr(type(base), '_is_abstract_node', False):
             return getattr(base, attr)
         if type(base).__name__ == 'Match' and type(base).__module__.endswith('rematch') and attr in (
-                'group', 'groups', 'groupdict', 'start', 'end', 'span', 'string'):
+                'group', 'groups', 'groupdict', 'start', 'end', 'span', 'string', 'lastindex', 'lastgroup', 'pos', 'endpos'):
             return getattr(base, attr)
         if getattr(type(base), '_is_abstract_node', False) and attr in ('parent', 'next_sibling', 'previous_sibling', 'next_element',
                                                                        'previous_element', 'name', 'kind'):
@@ -858,6 +863,7 @@ class Interp(MiniEval):
             if init:
                 m, fn = self.src.func(init)
                 self.run_function(m, fn, init.split('.')[1], args, kwargs, obj)
+            object.__setattr__(obj, '_constructed', True)     # every field comes from the interpreted constructor
             return obj
         if isinstance(callee, Partial):
             kw = dict(callee.kwargs)
